@@ -53,6 +53,12 @@ class Scratch:
         libs = os.path.join(self.dir, "src", "lib.rs")
         src = open(libs).read()
         need_kfs = False
+        # a harness file may require another one to be mounted as well (// kv-with: <group>)
+        for g in list(self.groups):
+            head = open(os.path.join(HARNESS_DIR, g + ".rs")).read(2000)
+            for w in re.findall(r"//\s*kv-with:\s*(\S+)", head):
+                if w not in self.groups:
+                    self.groups.append(w)
         for g in self.groups:
             path = os.path.join(HARNESS_DIR, g + ".rs")
             head = open(path).read(2000)
@@ -66,7 +72,7 @@ class Scratch:
             local = os.path.join(self.dir, "kv", g + ".rs")
             shutil.copy(path, local)
             with open(target, "a") as f:
-                f.write('\n#[cfg(kani)] #[path = "%s"] mod kv_%s;\n' % (local, g))
+                f.write('\n#[cfg(kani)] #[path = "%s"] pub(crate) mod kv_%s;\n' % (local, g))
             self.mounted.append((g, m.group(1)))
         extra = ""
         if need_kfs:
@@ -319,6 +325,9 @@ def synth_unwindset(goto, rules, default_note=None):
     return entries, len(loops)
 
 
+KANI_EXTRA = ["-Z", "c-ffi", "--c-lib", os.path.join(HARNESS_DIR, "ffi.c")] + (["-Z", "restrict-vtable"] if os.environ.get("KV_RESTRICT_VTABLE", "1") == "1" else [])
+
+
 def full_name(scratch, group, harness):
     for g, mount in scratch.mounted:
         if g == group:
@@ -334,7 +343,7 @@ def run_kani(scratch, harness, *, group=None, timeout=900, mem_gb=14, unwind_rul
     """Run one harness; returns KaniResult.  Never raises on solver trouble."""
     res = KaniResult(harness)
     t0 = time.time()
-    cmd = ["cargo", "kani", "-Z", "stubbing", "-Z", "unstable-options",
+    cmd = ["cargo", "kani", "-Z", "stubbing", "-Z", "unstable-options"] + KANI_EXTRA + [
            "--harness", full_name(scratch, group, harness) if group else harness, "--exact",
            "--target-dir", scratch.target]
     if scratch.features:
@@ -387,7 +396,7 @@ def run_kani(scratch, harness, *, group=None, timeout=900, mem_gb=14, unwind_rul
 def build(scratch, probe_harness="kv_noop"):
     """One full Kani build of the scratch crate (all mounted harnesses are code-generated).
     Returns (ok, log)."""
-    cmd = ["cargo", "kani", "-Z", "stubbing", "-Z", "unstable-options", "--only-codegen",
+    cmd = ["cargo", "kani", "-Z", "stubbing", "-Z", "unstable-options"] + KANI_EXTRA + ["--only-codegen",
            "--target-dir", scratch.target]
     if scratch.features:
         cmd += ["--features", ",".join(scratch.features)]
